@@ -254,8 +254,8 @@ type built struct {
 }
 
 type reuseCase struct {
-	Version string
-	Seq     []string
+	Version      string
+	Seq          []string
 	SameProvider bool
 }
 
